@@ -972,6 +972,10 @@ func (c *specCtx) call(n *SCall) (Val, types.Type) {
 		v, _ := arg(0)
 		cur := c.ghostArr("held", SArrB)
 		return scalar(tb.Select(cur, c.e.mutexRef(v))), types.Typ[types.Bool]
+	case "marked":
+		// marked("x"): the ghost mark x has been set (by the trusted contract of a function that must be shown to have been called)
+		v, _ := arg(0)
+		return scalar(tb.Select(c.ghostArr("marks", SArrB), v.T[0])), boolType
 	case "closed":
 		// closed(ch): the channel value has been closed (ghost flag)
 		v, _ := arg(0)
